@@ -28,7 +28,7 @@ ASSUMPTIONS = [
     'Unicode (non-ASCII) whitespace is not generated here: "any whitespace" is read as ASCII whitespace',
     'reference evaluator and recogniser (pv/gen/expr.py, no oslo_policy import) are trusted',
 ]
-LEVEL_TEXT = ('Every grammatical sentence up to 11 (thorough: 13) tokens and every list-of-lists shape up to the '
+LEVEL_TEXT = ('Every grammatical sentence up to 11 (thorough: 15) tokens and every list-of-lists shape up to the '
               'size bound is decided by the real code under all truth assignments and compared with a reference '
               'evaluator; beyond the bound, seeded random expressions in several spellings. Complete below the '
               'bound, sampled above it - the right level for an infinite language whose failure modes are shape-specific.')
@@ -47,7 +47,7 @@ ANCHORS = ['oslo_policy.policy:Enforcer.enforce', 'oslo_policy._parser:parse_rul
 REQUIRED_ANCHORS = ['oslo_policy.policy:Enforcer.enforce']
 
 BOUNDS = {'quick': dict(L=11, nB=400, nvar=8, file_every=20),
-          'thorough': dict(L=13, nB=40000, nvar=10, file_every=20)}
+          'thorough': dict(L=15, nB=40000, nvar=10, file_every=20)}
 
 FAMILIES = {
     'role': (lambda i: 'role:r%d' % i,
